@@ -62,6 +62,8 @@ Fixpoint dec_sched (fuel : nat) (l : list N) : list sop * list N :=
 Definition dec_script_rest (l : list N) : script * list N :=
   let '(start, r) := nx l in
   let '(bud, r) := nx r in
+  let '(_, r) := nx r in
+  let '(_, r) := nx r in
   let '(calls, r) := dec_counted dec_bcall r in
   let '(pr, r) := dec_counted (dec_counted dec_action) r in
   let '(pre, r) := dec_counted dec_pair r in
